@@ -331,6 +331,44 @@ def cast(a, frm, to):
     return ("cast", a, frm, to)
 
 
+COMMUTATIVE = {"Add", "Mul", "BitAnd", "BitOr", "BitXor", "Eq", "Ne"}
+
+
+def _uwiden(frm, to):
+    """cast from an unsigned integer type to a type that holds all its values (value-preserving)"""
+    if frm not in INT_TYS or to not in INT_TYS:
+        return False
+    flo, fhi = ty_range(frm)
+    tlo, thi = ty_range(to)
+    return flo == 0 and fhi <= thi
+
+
+def norm_arith(t):
+    """canonical form for comparing arithmetic written in different but equivalent ways: operands of commutative
+    operators are ordered; an unsigned right shift by a constant is the division by that power of two; value-preserving
+    widening casts are pushed through divisions / masks by constants and merged. Every step is an identity on values."""
+    if not isinstance(t, tuple) or not t:
+        return t
+    t = tuple(norm_arith(x) if isinstance(x, tuple) else x for x in t)
+    k = t[0]
+    if k == "bin" and len(t) == 5:
+        op, a, b, ty = t[1], t[2], t[3], t[4]
+        if op == "Shr" and is_c(b) and isinstance(b[1], int) and ty in INT_TYS and ty_range(ty)[0] == 0 and 0 <= b[1] < 128:
+            return norm_arith(("bin", "Div", a, C(1 << b[1], ty), ty))
+        if op in COMMUTATIVE and repr(b) < repr(a):
+            return ("bin", op, b, a, ty)
+        return t
+    if k == "cast" and len(t) == 4:
+        a, frm, to = t[1], t[2], t[3]
+        if _uwiden(frm, to) and isinstance(a, tuple) and a:
+            if a[0] == "cast" and len(a) == 4 and _uwiden(a[2], a[3]) and a[3] == frm:
+                return norm_arith(("cast", a[1], a[2], to))
+            if a[0] == "bin" and len(a) == 5 and a[1] in ("Div", "BitAnd", "Rem") and is_c(a[3]) and isinstance(a[3][1], int) and a[3][1] >= 0 and a[4] == frm:
+                return norm_arith(("bin", a[1], ("cast", a[2], frm, to), C(a[3][1], to), to))
+        return t
+    return t
+
+
 # ---------------------------------------------------------------- evaluator
 def is_await_loop(fn, body):
     """the poll loop an `.await` desugars to (contains the Yield); it is entered, and the poll model leaves it at once"""
@@ -549,6 +587,17 @@ class Evaluator:
                 c = self.prog.consts.get(o["uneval"])
                 if c and "int" in c:
                     return C(int(c["int"]), c["ty"])
+                cf = self.prog.fn(o["uneval"])
+                if cf is not None and cf.kind in ("Const", "AssocConst") and cf.arg_count == 0:
+                    # a named constant's initialiser (lookup tables): its value is the value of its body
+                    memo = self.__dict__.setdefault("_const_memo", {})
+                    if cf.path not in memo:
+                        try:
+                            memo[cf.path] = self.eval_fn(cf, [], 1)
+                        except Undecided:
+                            memo[cf.path] = None
+                    if memo[cf.path] is not None:
+                        return memo[cf.path]
             return ("const", o.get("pp", "?"), ty)
         raise Undecided("operand %r" % (o,))
 
@@ -959,6 +1008,9 @@ class Evaluator:
                     if a[0] == "mref":
                         self._mref_set(env, a, ("mutated", name, i, tuple(vals)))
                 return res
+        nc = _num_conv(name, t)
+        if nc is not None and len(args) == 1:
+            return cast(args[0], nc[0], nc[1])
         for key in (name, declared):
             m = self.models.get(key)
             if m is not None:
@@ -1100,6 +1152,105 @@ def _m_opt_is_none(ev, a, t, d):
 
 def _m_opt_is_some_and(ev, a, t, d):
     return opt_match(a[0], lambda x: ev.apply_closure(a[1], [x], d), lambda: FALSE)
+
+
+def _m_opt_or_else(ev, a, t, d):
+    return opt_match(a[0], lambda x: some(x), lambda: ev.apply_closure(a[1], [], d))
+
+
+def _m_opt_or(ev, a, t, d):
+    return opt_match(a[0], lambda x: some(x), lambda: a[1])
+
+
+def _m_opt_filter(ev, a, t, d):
+    return opt_match(a[0], lambda x: ite(ev.apply_closure(a[1], [x], d), some(x), NONE), lambda: NONE)
+
+
+def _m_opt_flatten(ev, a, t, d):
+    return opt_match(a[0], lambda x: x, lambda: NONE)
+
+
+def _m_opt_zip(ev, a, t, d):
+    return opt_match(a[0], lambda x: opt_match(a[1], lambda y: some(("tuple", (x, y))), lambda: NONE), lambda: NONE)
+
+
+def _m_opt_map_or(ev, a, t, d):
+    return opt_match(a[0], lambda x: ev.apply_closure(a[2], [x], d), lambda: a[1])
+
+
+def _m_opt_map_or_else(ev, a, t, d):
+    return opt_match(a[0], lambda x: ev.apply_closure(a[2], [x], d), lambda: ev.apply_closure(a[1], [], d))
+
+
+def _m_opt_is_none_or(ev, a, t, d):
+    return opt_match(a[0], lambda x: ev.apply_closure(a[1], [x], d), lambda: TRUE)
+
+
+def _m_then_some(ev, a, t, d):
+    return ite(a[0], some(a[1]), NONE)
+
+
+def _m_then(ev, a, t, d):
+    return ite(a[0], some(ev.apply_closure(a[1], [], d)), NONE)
+
+
+def _m_res_and_then(ev, a, t, d):
+    return res_match(a[0], lambda x: ev.apply_closure(a[1], [x], d), lambda e: err(e))
+
+
+def _m_res_or_else(ev, a, t, d):
+    return res_match(a[0], lambda x: ok(x), lambda e: ev.apply_closure(a[1], [e], d))
+
+
+def _m_res_unwrap_or(ev, a, t, d):
+    return res_match(a[0], lambda x: x, lambda e: a[1])
+
+
+def _m_res_unwrap_or_else(ev, a, t, d):
+    return res_match(a[0], lambda x: x, lambda e: ev.apply_closure(a[1], [e], d))
+
+
+def _m_res_map_or(ev, a, t, d):
+    return res_match(a[0], lambda x: ev.apply_closure(a[2], [x], d), lambda e: a[1])
+
+
+def _m_res_err(ev, a, t, d):
+    return res_match(a[0], lambda x: NONE, lambda e: some(e))
+
+
+def _m_res_is_err(ev, a, t, d):
+    return res_match(a[0], lambda x: FALSE, lambda e: TRUE)
+
+
+def _int_ty_of(t):
+    c = (t or {}).get("callee") or ""
+    if "<impl " in c:
+        ty = c.split("<impl ")[1].split(">")[0]
+        if ty in INT_TYS:
+            return ty
+    return None
+
+
+def _m_checked(op):
+    def f(ev, a, t, d):
+        ty = _int_ty_of(t)
+        if ty is None:
+            return None
+        lo, hi = ty_range(ty)
+        if op == "Sub" and lo == 0:
+            return ite(binop("Le", a[1], a[0], ty), some(binop("Sub", a[0], a[1], ty)), NONE)
+        return None
+    return f
+
+
+def _m_is_negative(ev, a, t, d):
+    ty = _int_ty_of(t)
+    return binop("Lt", a[0], C(0, ty), ty) if ty else None
+
+
+def _m_is_positive(ev, a, t, d):
+    ty = _int_ty_of(t)
+    return binop("Gt", a[0], C(0, ty), ty) if ty else None
 
 
 def _m_opt_branch(ev, a, t, d):
@@ -1400,6 +1551,27 @@ DEFAULT_MODELS = {
     "core::option::Option::<T>::is_none": _m_opt_is_none,
     "core::option::Option::<T>::is_some_and": _m_opt_is_some_and,
     "core::option::Option::<T>::as_ref": _ident,
+    "core::option::Option::<T>::as_deref": _ident,
+    "core::option::Option::<T>::or_else": _m_opt_or_else,
+    "core::option::Option::<T>::or": _m_opt_or,
+    "core::option::Option::<T>::filter": _m_opt_filter,
+    "core::option::Option::<core::option::Option<T>>::flatten": _m_opt_flatten,
+    "core::option::Option::<T>::zip": _m_opt_zip,
+    "core::option::Option::<T>::map_or": _m_opt_map_or,
+    "core::option::Option::<T>::map_or_else": _m_opt_map_or_else,
+    "core::option::Option::<T>::is_none_or": _m_opt_is_none_or,
+    "core::bool::<impl bool>::then_some": _m_then_some,
+    "core::bool::<impl bool>::then": _m_then,
+    "core::result::Result::<T, E>::and_then": _m_res_and_then,
+    "core::result::Result::<T, E>::or_else": _m_res_or_else,
+    "core::result::Result::<T, E>::unwrap_or": _m_res_unwrap_or,
+    "core::result::Result::<T, E>::unwrap_or_else": _m_res_unwrap_or_else,
+    "core::result::Result::<T, E>::map_or": _m_res_map_or,
+    "core::result::Result::<T, E>::err": _m_res_err,
+    "core::result::Result::<T, E>::is_err": _m_res_is_err,
+    "core::result::Result::<T, E>::as_ref": _ident,
+    "core::option::Option::<&mut T>::copied": _ident,
+    "core::option::Option::<&mut T>::cloned": _ident,
     "core::option::Option::<&T>::cloned": _ident,
     "core::option::Option::<&T>::copied": _ident,
     "<core::option::Option<T> as core::ops::try_trait::Try>::branch": _m_opt_branch,
@@ -1468,8 +1640,30 @@ DEFAULT_MODELS = {
 for _n in ("take_while", "skip_while", "skip", "take", "step_by", "map_while", "inspect", "scan", "flat_map", "chain", "zip"):
     DEFAULT_MODELS["core::iter::traits::iterator::Iterator::" + _n] = _m_iop(_n)
 DEFAULT_MODELS["core::iter::traits::iterator::Iterator::rev"] = _m_iop("rev")
+for _ty in INT_TYS:
+    DEFAULT_MODELS["core::num::<impl %s>::checked_sub" % _ty] = _m_checked("Sub")
+    if ty_range(_ty)[0] < 0:
+        DEFAULT_MODELS["core::num::<impl %s>::is_negative" % _ty] = _m_is_negative
+        DEFAULT_MODELS["core::num::<impl %s>::is_positive" % _ty] = _m_is_positive
 for _ty in ("u16", "u32", "i32", "u64", "i16"):
     DEFAULT_MODELS["core::num::<impl %s>::from_be_bytes" % _ty] = (lambda ty: (lambda ev, a, t, d: ("be", a[0], ty)))(_ty)
+
+
+import re as _re
+_NUM_FROM = _re.compile(r"^core::convert::num::<impl core::convert::From<(\w+)> for (\w+)>::from$")
+NUM_TYS = set(INT_TYS) | {"f32", "f64"}
+
+
+def _num_conv(name, t):
+    """(from, to) when the callee is a lossless numeric conversion (`T::from(x)`, `x.into()` between primitive numbers)"""
+    m = _NUM_FROM.match(name)
+    if m and m.group(1) in NUM_TYS | {"bool"} and m.group(2) in NUM_TYS:
+        return m.group(1), m.group(2)
+    if t and name in ("<T as core::convert::Into<U>>::into", "core::convert::Into::into"):
+        tys = [x["d"]["s"] for x in t.get("targs", [])]
+        if len(tys) == 2 and tys[0] in NUM_TYS and tys[1] in NUM_TYS:
+            return tys[0], tys[1]
+    return None
 
 
 def is_uom_new(name):
@@ -1591,7 +1785,7 @@ def bits_of(t, width_hint=None):
                 return b + [b[-1]] * (n - len(b))    # sign extension
             return b + [0] * (n - len(b))
         return None
-    if k == "bin" and t[4] in INT_TYS:
+    if k == "bin" and t[4] in INT_TYS and t[1] not in ("Add", "Mul"):
         n = INT_TYS[t[4]][1]
         a = bits_of(t[2], n)
         b = bits_of(t[3], INT_TYS[t[3][2]][1] if t[3][0] == "c" and t[3][2] in INT_TYS else n)
@@ -1634,6 +1828,43 @@ def bits_of(t, width_hint=None):
                     return None
             return out
         return None
+    if k == "be" and t[2] in INT_TYS and isinstance(t[1], tuple) and t[1] and t[1][0] == "array":
+        # big-endian assembly of explicit bytes
+        out = []
+        for byte in reversed(t[1][1]):
+            b = bits_of(byte, 8)
+            if b is None or len(b) != 8:
+                return None
+            out += b
+        return out if len(out) == INT_TYS[t[2]][1] else None
+    if k == "idx" and is_c(t[2]) and isinstance(t[1], tuple) and t[1] and t[1][0] == "call" and t[1][1].endswith("::to_be_bytes") and "<impl " in t[1][1]:
+        ty = t[1][1].split("<impl ")[1].split(">")[0]
+        if ty in INT_TYS and len(t[1][2]) == 1:
+            n = INT_TYS[ty][1]
+            b = bits_of(t[1][2][0], n)
+            i = t[2][1]
+            if b is not None and 0 <= i < n // 8:
+                hi = n - 8 * i
+                return b[hi - 8:hi]
+        return None
+    if k == "bin" and t[4] in INT_TYS and t[1] in ("Add", "Mul"):
+        n = INT_TYS[t[4]][1]
+        if t[1] == "Mul":
+            for x, y in ((t[2], t[3]), (t[3], t[2])):
+                if is_c(y) and isinstance(y[1], int) and y[1] > 0 and (y[1] & (y[1] - 1)) == 0:
+                    a = bits_of(x, n)
+                    if a is not None:
+                        sh = y[1].bit_length() - 1
+                        if all(z == 0 for z in a[n - sh:]):      # no bit is shifted out: the product cannot overflow
+                            return ([0] * sh + a)[:n]
+            return None
+        a, b = bits_of(t[2], n), bits_of(t[3], n)
+        if a is None or b is None:
+            return None
+        b = (b + [0] * n)[:n]
+        if all(x == 0 or y == 0 for x, y in zip(a, b)):          # disjoint bit sets: the sum has no carries
+            return [x if y == 0 else y for x, y in zip(a, b)]
+        return None
     if k == "in":
         # membership of a bit-vector value in a range set: decidable when the vector has one free bit
         b = bits_of(t[1], INT_TYS[t[2]][1])
@@ -1652,6 +1883,36 @@ def bits_of(t, width_hint=None):
             return [1 if any(lo <= base <= hi for lo, hi in t[3]) else 0]
         return None
     return None
+
+
+def sem_eq(a, b):
+    """equality of two terms up to the value-preserving rewrites of norm_arith and, for integer expressions in the
+    mask/shift fragment, equal per-bit provenance; recursive through equal case structure and aggregates"""
+    if a == b:
+        return True
+    if not (isinstance(a, tuple) and isinstance(b, tuple) and a and b):
+        return False
+    na, nb = norm_arith(a), norm_arith(b)
+    if na == nb:
+        return True
+    a, b = na, nb
+    if a[0] == b[0] == "cases" and a[1] == b[1] and a[2] == b[2] and len(a[3]) == len(b[3]) and all(x[0] == y[0] for x, y in zip(a[3], b[3])):
+        return all(sem_eq(x[1], y[1]) for x, y in zip(a[3], b[3]))
+    if a[0] == b[0] == "ite" and a[1] == b[1]:
+        return sem_eq(a[2], b[2]) and sem_eq(a[3], b[3])
+    if a[0] == b[0] == "adt" and a[1] == b[1] and a[2] == b[2] and len(a[3]) == len(b[3]):
+        return all(x[0] == y[0] and sem_eq(x[1], y[1]) for x, y in zip(a[3], b[3]))
+    if a[0] == b[0] == "cast" and a[2:] == b[2:]:
+        return sem_eq(a[1], b[1])
+    if a[0] == b[0] == "uom" and a[1] == b[1]:
+        return sem_eq(a[2], b[2])
+    if a[0] == b[0] == "tuple" and len(a[1]) == len(b[1]):
+        return all(sem_eq(x, y) for x, y in zip(a[1], b[1]))
+    try:
+        ba, bb = bits_of(a), bits_of(b)
+    except Exception:
+        return False
+    return ba is not None and ba == bb
 
 
 def prune(t, known=None, sub=None):
